@@ -132,7 +132,7 @@ func (d *Driver) yield(instanceID, site string) {
 		d.mu.Lock()
 		d.h.Attempts = append(d.h.Attempts, &AttemptEvt{GID: g, T: d.now(), Step: d.step})
 		d.mu.Unlock()
-		return
+		// (also an ordinary yield site: falls through)
 	}
 	d.mu.Lock()
 	if d.ending || d.plan.Sched.YieldProb <= 0 || !d.rYield.Bool(d.plan.Sched.YieldProb) {
